@@ -93,6 +93,10 @@ def cases(tier, seed):
     for i in range(n):
         out.append({'name': 'fresh-%d' % i, 'kind': 'fresh',
                     'seed': [seed, 163, i]})
+    n = 5 if tier == 'quick' else 60
+    for i in range(n):
+        out.append({'name': 'orifice-%d' % i, 'kind': 'orifice',
+                    'seed': [seed, 164, i]})
     return out
 
 
@@ -518,11 +522,82 @@ def run_fresh(case, res):
     return feats
 
 
+def run_orifice(case, res):
+    """An orificing optimisation between two model constructions from one
+    parsed input: the optimiser works on copies (it rewrites the boundary
+    conditions of every iteration), the parsed input stays as it was and the
+    model built from it afterwards is the model built before."""
+    import dassh.__main__  # noqa: F401  (optimize() uses dassh.__main__)
+    from dassh.orificing import Orificing
+    from vmon.checks import c20
+    rng = np.random.default_rng(case['seed'])
+    P, feats = c20.e2e_problem(rng)
+    P['orificing']['iteration_limit'] = 2
+    # boundary conditions of several kinds in the parsed input (the
+    # optimiser overwrites all of them in its copies)
+    for q in P['positions'][1:]:
+        if rng.random() < 0.4:
+            q.pop('flowrate', None)
+            q['outlet_temp'] = float(P['inlet'] + rng.uniform(60, 140))
+    key = {'history': 'orificing', 'pin': False}
+    with drive.scratch() as d:
+        path = gen.render(P, d)
+        inp = drive.read_input(path)
+        s0 = snapshot(inp.data)
+        with drive.quiet():
+            r = dassh.Reactor(inp, path=os.path.join(d, 'before'),
+                              write_output=True)
+            if len(r.z) > MAX_STEPS:
+                raise drive.TooManySteps('too_many_steps', [])
+            r.temperature_sweep()
+        f0 = fields(r)
+        env.log_records()
+        try:
+            with drive.quiet():
+                o = Orificing(inp)
+                o.optimize()
+        except SystemExit:
+            res.tag('orificing:error_exit')
+        bad = diff(s0, snapshot(inp.data))
+        res.check('H1_input_unchanged', not bad,
+                  'DASSH_Input.data changed by an orificing optimisation: %s'
+                  % ', '.join(bad[:5]),
+                  dict(key, paths=sorted(set(re.sub(r"\['[^']*'\]", '[.]',
+                                                    p, count=2)
+                                             for p in bad))[:4]),
+                  {'paths': bad})
+        try:
+            with drive.quiet():
+                r2 = dassh.Reactor(inp, path=os.path.join(d, 'after'),
+                                   write_output=True)
+                r2.temperature_sweep()
+        except (SystemExit, Exception) as e:   # noqa
+            res.check('H2_reconstruction_succeeds', False,
+                      'construction from the same input object after an '
+                      'orificing optimisation failed: %s %s'
+                      % (type(e).__name__, e), key)
+            return feats
+        res.check('H2_reconstruction_succeeds', True, '', key)
+        f1 = fields(r2)
+        same = f1.shape == f0.shape and np.array_equal(f0, f1)
+        res.check('H3_reconstruction_bitwise_equal', same,
+                  'the model built after an orificing optimisation gives '
+                  'different temperatures than the one built before (max '
+                  'diff %.3e)' % (float(np.max(np.abs(f1 - f0)))
+                                  if f1.shape == f0.shape else float('nan')),
+                  key)
+    res.tag('history=orificing')
+    res.nontrivial('orifice/%s' % case['seed'][-1])
+    feats['pin'] = False
+    return feats
+
+
 def run_case(case):
     res = Result(case)
     try:
         feats = {'history': run_history, 'schedule': run_schedule,
-                 'fresh': run_fresh}[case['kind']](case, res)
+                 'fresh': run_fresh, 'orifice': run_orifice}[
+                     case['kind']](case, res)
         res.sample({'case': case, 'features': {k: str(v) for k, v in
                                                feats.items()}})
     except drive.Rejected as e:
